@@ -623,6 +623,7 @@ func randCfg(rng *rand.Rand) qcfg {
 	if cfg.Persistent {
 		cfg.Sizer = "requests"
 		cfg.Capacity = int64(1 + rng.Intn(6))
+		cfg.StartCtxEnds = rng.Intn(2) == 0
 		return cfg
 	}
 	cfg.WFR = rng.Intn(3) == 0
@@ -637,6 +638,7 @@ func randCfg(rng *rand.Rand) qcfg {
 		cfg.Sizer = "bytes"
 		cfg.Capacity = int64(60 + rng.Intn(400))
 	}
+	cfg.StartCtxEnds = rng.Intn(4) == 0
 	return cfg
 }
 
